@@ -55,7 +55,7 @@ theorem exists_cut {n : Nat} (hn : n = 3 ∨ n = 4) {m : Nat} (hm : m < numMasks
     fun a ha => List.mem_range.mp (hsub.subset ha), ?_⟩
   intro i hi hbit
   simp only [isCut, List.all_eq_true, List.mem_range, Bool.or_eq_true, Bool.not_eq_true',
-    List.contains_iff_mem, decide_eq_true_eq] at hcut
+    List.contains_iff_mem] at hcut
   rcases hcut i hi with (h | h) | h
   · rw [hbit] at h; exact absurd h (by simp)
   · exact Or.inl h
